@@ -104,8 +104,50 @@ def shrink(case, bucket):
     return dict(case, term=to_json(t2))
 
 
+def chain_terms(tier):
+    """Long same-operator runs (left-nested, right-nested, balanced) and mixed two-operator runs."""
+    from ..gen_syntax import _node
+    ns = [5, 9, 12, 17, 33] if tier == "quick" else [5, 8, 9, 10, 12, 16, 17, 25, 33, 64, 129]
+    leaves = [("id", "x%d" % i, ()) for i in range(140)]
+    for op in gen_syntax.BINARY:
+        if op == "in":
+            continue
+        for n in ns:
+            ls = leaves[:n]
+            left = ls[0]
+            for x in ls[1:]:
+                left = _node(op, left, x)
+            yield left
+            right = ls[-1]
+            for x in reversed(ls[:-1]):
+                right = _node(op, x, right)
+            yield right
+
+            def bal(xs):
+                if len(xs) == 1:
+                    return xs[0]
+                m = len(xs) // 2
+                return _node(op, bal(xs[:m]), bal(xs[m:]))
+            yield bal(ls)
+    for o1, o2 in (("and", "or"), ("or", "and"), ("add", "mul"), ("sub", "div"), ("eq", "lt"), ("and", "eq")):
+        for n in ns[:3]:
+            t = leaves[0]
+            for i, x in enumerate(leaves[1:n]):
+                t = _node(o1 if i % 2 else o2, t, x)
+            yield t
+    for n in ns[:4]:
+        t = leaves[0]
+        for _ in range(n):
+            t = ("un", "not", t)
+        yield t
+        t = leaves[0]
+        for i in range(n):
+            t = ("un", "neg" if i % 2 else "not", t)
+        yield t
+
+
 def plan(tier, seed, scale):
-    tasks = []
+    tasks = [{"name": "chains", "kind": "chains", "tier": tier}]
     K = 16
     ns = [1, 2, 3] if tier == "quick" else [1, 2, 3, 4]
     for n in ns:
@@ -133,6 +175,17 @@ def has_list_op(t):
 
 
 def run_task(task, seed, acc):
+    if task["kind"] == "chains":
+        for t in chain_terms(task["tier"]):
+            for mode in ("minimal", "full"):
+                case = {"term": to_json(t), "mode": mode}
+                r = check_case(case)
+                acc.case(key=digest(repr(t) + mode), nontrivial=True,
+                         sample={"text": printer.render(t, STYLES[mode]())[:120], "mode": mode})
+                acc.cls("long_chains")
+                if r:
+                    acc.fail(r[0], case, r[1])
+        return
     if task["kind"] == "exh":
         it = gen_syntax.enumerate_ops(task["n"], task["list_ops"])
         for idx, t in enumerate(it):
